@@ -76,6 +76,9 @@ pub struct GenCfg {
     pub fk_refs_min: usize,
     /// never write `time_length: full | long` (known finding D23: those lengths panic at run time)
     pub fmt_no_zoned_time: bool,
+    /// some variables are named with a `-` (`first-name`): parser-level checks only (the generated-crate tier
+    /// writes variable names as Rust identifiers)
+    pub hyphen_vars: bool,
 }
 
 impl Default for GenCfg {
@@ -111,6 +114,7 @@ impl Default for GenCfg {
             p_hide_count: 33,
             fk_refs_min: 0,
             fmt_no_zoned_time: false,
+            hyphen_vars: false,
         }
     }
 }
@@ -143,6 +147,16 @@ impl<'t> Gen<'t> {
         WS_POOL[i].to_string()
     }
 
+    /// whitespace directly inside `{{ }}` / `< >`: one time in eight (unicode configurations) a character that is
+    /// white space for Unicode but not for ASCII (the library trims names with `str::trim`)
+    pub fn ws_inner(&mut self) -> String {
+        if self.cfg.unicode && self.t.chance(1, 8) {
+            const UNI_WS: &[&str] = &["\u{a0}", "\u{3000}", "\u{2003}", "\u{85}", "\u{b}", " \u{a0}", "\u{2028}\t"];
+            return UNI_WS[self.t.pick(UNI_WS.len())].to_string();
+        }
+        self.ws()
+    }
+
     pub fn text(&mut self, tag: &str) -> String {
         let mut s = String::new();
         if self.cfg.tags && !tag.is_empty() {
@@ -163,7 +177,7 @@ impl<'t> Gen<'t> {
     pub fn var_piece(&mut self, name: &str) -> Piece {
         Piece::Var {
             name: name.to_string(),
-            ws: [self.ws(), self.ws()],
+            ws: [self.ws_inner(), self.ws_inner()],
             fmt: None,
         }
     }
@@ -183,7 +197,7 @@ impl<'t> Gen<'t> {
                 Some(f) => format!("{}_{}", name, f.name),
                 None => name.to_string(),
             },
-            ws: [self.ws(), self.ws()],
+            ws: [self.ws_inner(), if fmt.is_some() { self.ws() } else { self.ws_inner() }],
             fmt,
         }
     }
@@ -256,7 +270,7 @@ impl<'t> Gen<'t> {
             match kind {
                 0 => out.push(Piece::Text(self.text(tag))),
                 1 => {
-                    let name = *self.t.choose(VAR_POOL);
+                    let name = if self.cfg.hyphen_vars && self.t.chance(1, 5) { *self.t.choose(&["first-name", "user-id", "x-y-z"]) } else { *self.t.choose(VAR_POOL) };
                     out.push(self.var_piece_fmt(name));
                 }
                 _ => {
@@ -266,7 +280,7 @@ impl<'t> Gen<'t> {
                     } else {
                         self.pieces(tag, depth + 1, true)
                     };
-                    let mut ws = [self.ws(), self.ws(), self.ws(), self.ws()];
+                    let mut ws = [self.ws_inner(), self.ws_inner(), self.ws_inner(), self.ws_inner()];
                     if !self.cfg.ws_in_closing_tag {
                         ws[3] = String::new();
                     }
@@ -362,7 +376,16 @@ impl<'t> Gen<'t> {
         match kind {
             0 => {
                 // on float ranges a third of the exact counts are whole numbers written as integer tokens (`-1`, `"7"`)
-                let v = if ty.is_float() && self.t.chance(1, 3) { Num::Int(self.t.range(0, 40) as i128 - 20) } else { self.num(ty, near) };
+                let v = if ty.is_float() && self.t.chance(1, 3) {
+                    if self.t.chance(1, if ty == RangeTy::F32 { 2 } else { 4 }) {
+                        // integers beyond 2^53 (and 2^24): the conversion to the range's float type must round once
+                        Num::Int(*self.t.choose(&[9007199791611905i128, -9007199791611905, 9223372586610589697, 16777217, 9007199254740993, -16777219, 4611686293305294849]))
+                    } else {
+                        Num::Int(self.t.range(0, 40) as i128 - 20)
+                    }
+                } else {
+                    self.num(ty, near)
+                };
                 CountSpec::Exact { v, as_number: self.t.coin() }
             }
             1 | 2 => {
@@ -647,7 +670,14 @@ impl<'t> Gen<'t> {
 
     fn value_of_kind(&mut self, kind: Kind, tag: &str, depth: usize, names: &mut NameSrc) -> Value {
         match kind {
-            Kind::Plain => Value::Str(self.pieces(tag, 0, false)),
+            Kind::Plain => {
+                // one plain value in twelve is the empty string (a defined value, not `null`)
+                if self.t.chance(1, 12) {
+                    Value::Str(vec![])
+                } else {
+                    Value::Str(self.pieces(tag, 0, false))
+                }
+            }
             Kind::Interp => Value::Str(self.pieces(tag, 0, true)),
             Kind::Lit => self.literal(),
             Kind::Range => {
@@ -659,7 +689,8 @@ impl<'t> Gen<'t> {
                 Value::Plural(self.plural_decl(tag, rich))
             }
             Kind::Sub => {
-                let n = self.t.range(1, 4);
+                // one group in ten is empty in the default locale (other locales may still write keys there: surplus)
+                let n = if self.t.chance(1, 10) { 0 } else { self.t.range(1, 4) };
                 let mut o = vec![];
                 for _ in 0..n {
                     let k = names.next(self.t);
@@ -854,7 +885,24 @@ impl<'t> Gen<'t> {
                     break;
                 }
             }
-            let Some(name) = name else { continue };
+            let Some(mut name) = name else { continue };
+            // one reference key in six is named like a plural form of a sibling key (`title_one` next to `title`)
+            // without being a plural (no `_other` companion): it is an ordinary key
+            if self.t.chance(1, 6) {
+                let siblings: Vec<String> = p
+                    .file(ns.as_deref(), p.default_locale())
+                    .map(|o| o.iter().filter(|(_, v)| !matches!(v, Value::Plural(_))).map(|(k, _)| k.clone()).collect())
+                    .unwrap_or_default();
+                if !siblings.is_empty() {
+                    let sib = siblings[self.t.pick(siblings.len())].clone();
+                    let form = *self.t.choose(&["one", "two", "few", "many", "zero", "ordinal_one", "ordinal_few"]);
+                    let cand = format!("{sib}_{form}");
+                    let clash = used.iter().any(|u| u == &cand || u.starts_with(&format!("{sib}_")) || cand.starts_with(&format!("{u}_")) && u != &sib);
+                    if !clash {
+                        name = cand;
+                    }
+                }
+            }
             let nrefs = if self.cfg.fk_refs_min > 0 { self.t.range(self.cfg.fk_refs_min, self.cfg.fk_refs_min + 4) } else { self.t.weighted(&[5, 2, 1]) + 1 };
             let locales = p.locales.clone();
             // choose target paths from the default locale's leaves (any namespace)
@@ -1063,7 +1111,7 @@ impl<'t> Gen<'t> {
                             }
                         }
                         // whole numbers written as integer tokens on float ranges are passed as floats here
-                        let exact_bounds: Vec<Num> = exact_bounds.into_iter().map(|b| if r.ty.is_float() { Num::Float(b.as_f64()) } else { b }).collect();
+                        let exact_bounds: Vec<Num> = exact_bounds.into_iter().map(|b| if r.ty.is_float() { Num::Float(crate::sem::bound_f64(&b, r.ty)) } else { b }).collect();
                         let near_bound = if !exact_bounds.is_empty() && self.t.chance(1, 2) {
                             Some(exact_bounds[self.t.pick(exact_bounds.len())])
                         } else if !probes.is_empty() && self.t.chance(2, 3) {
